@@ -77,6 +77,7 @@ type Scenario struct {
 	OwnRandom   bool
 	NoOwnRandom bool           // with Fresh: leave the random sources alone (C19)
 	ClockStart  int64          // virtual clock start (unix nanos); 0 = default
+	ClockFrozen bool           // the clock does not advance between readings
 	PublicKey   *rsa.PublicKey // overrides the key given to the client (default: the server's)
 	Handler     bool           // register a custom server-request handler that accepts everything
 	Setup       func(w *World)
@@ -184,6 +185,7 @@ func Run(sc *Scenario, prefix []int, tracing bool) *World {
 	if sc.ClockStart != 0 {
 		s.SetClock(sc.ClockStart)
 	}
+	s.ClockFrozen = sc.ClockFrozen
 	w.Net = NewNet(s)
 	key := TestKey()
 	w.Srv = rpcsrv.New(key, sc.Salt)
